@@ -818,6 +818,7 @@ func (c *ClientConn) readDownstreamMetadataLoop() {
 		if ok {
 			ch, ok := chs[msg.SourceNodeID]
 			if !ok {
+				c.downstreams.mu.RUnlock()
 				continue
 			}
 			select {
